@@ -16,6 +16,8 @@ def main(chk, tier):
         c07.rule_fields(chk, db, cfgname, tab, 'C08.1')
         c07.rule_perm(chk, db, cfgname, tab, 'C08.2')
         c07.rule_runs(chk, db, cfgname, 'C08.3')
+        c07.rule_emission(chk, db, cfgname, 'C08.4')
+        c07.rule_run_domain(chk, db, cfgname, 'C08.5')
     n = len(configs)
     chk.floor('c08.1.written_fields', 16 * n)
     chk.floor('c08.2.attribute_flows', 4 * n)
